@@ -108,16 +108,18 @@ struct Hist {
         if (err.empty() && !lt::violation().empty()) { err = "lifetime: " + lt::violation(); }
         return err.empty();
     }
-    void labels(char const* owner, int stats, OpsCase const& k) const
+    // `applicable`: which of the classes exist for this owner ('c'ross, 'm'iddle, mo'v'ed, 's'wapped, sel'f')
+    void labels(char const* owner, int stats, OpsCase const& k, char const* applicable = "cmvsf") const
     {
         if (stats > 1) {
-            auto l = [&](char const* what, bool b) { vf::label((std::string(owner) + "." + what).c_str(), b); };
+            auto on = [&](char ch) { return std::strchr(applicable, ch) != nullptr; };
+            auto l  = [&](char const* what, bool b) { vf::label((std::string(owner) + "." + what).c_str(), b); };
             l("live>=3", max_live >= 3);
-            l("cross/engage transition", cross);
-            l("middle insert/erase", middle);
-            l("move with elements", moved);
-            l("swap non-empty", swapped);
-            l("self-op non-empty", selfop);
+            if (on('c')) { l("cross/engage transition", cross); }
+            if (on('m')) { l("middle insert/erase", middle); }
+            if (on('v')) { l("move with elements", moved); }
+            if (on('s')) { l("swap non-empty", swapped); }
+            if (on('f')) { l("self-op non-empty", selfop); }
             l("nontrivial", nontrivial());
         }
         if (stats > 0 && nontrivial()) { vf::nontrivial(vf::digest(k)); }
